@@ -362,18 +362,26 @@ type Respell struct {
 	KeywordCase uint32
 	// BareMultiPoint: drop the parentheses around MultiPoint members.
 	BareMultiPoint bool
+	// ParenMask: with BareMultiPoint, the k-th MultiPoint member of the text (counted across the whole
+	// text, mod 32) keeps its parentheses when bit k is set, so bare and parenthesised members mix.
+	ParenMask uint32 `json:"paren_mask,omitempty"`
 	// ExpNumerals: numerals are re-written in exponent form when possible.
 	ExpNumerals int // 0 keep, 1 'e' lower, 2 'E' upper
+	// PlainMask: with ExpNumerals, the k-th numeral (mod 32) stays in plain form when bit k is set.
+	PlainMask uint32 `json:"plain_mask,omitempty"`
 }
 
 // WKTTokens renders a model to tokens with the OGC grammar.
 func WKTTokens(g gm.G, r Respell) []WKTTok {
 	var out []WKTTok
 	emit := func(k, t string) { out = append(out, WKTTok{k, t}) }
+	nNum, nMem := uint(0), uint(0)
 	num := func(f gm.F) {
 		v := float64(f)
 		s := strconv.FormatFloat(v, 'f', -1, 64)
-		if r.ExpNumerals != 0 {
+		plain := r.PlainMask>>(nNum%32)&1 == 1
+		nNum++
+		if r.ExpNumerals != 0 && !plain {
 			s = strconv.FormatFloat(v, 'e', -1, 64)
 			if r.ExpNumerals == 2 {
 				s = strings.ToUpper(s)
@@ -452,7 +460,13 @@ func WKTTokens(g gm.G, r Respell) []WKTTok {
 				case g.T == gm.GeometryCollection:
 					geomFn(m)
 				case g.T == gm.MultiPoint && r.BareMultiPoint && len(m.Co) > 0:
-					pos(m.Co)
+					paren := r.ParenMask>>(nMem%32)&1 == 1
+					nMem++
+					if paren {
+						body(m)
+					} else {
+						pos(m.Co)
+					}
 				default:
 					body(m)
 				}
